@@ -18,7 +18,7 @@ for d in sorted(glob.glob(os.path.join(ROOT, "seeded", "*"))):
 hdr = """### 9.5 Seeded changes and which checks catch them
 
 %d changes to txtpp were written by sub-agents that saw only the text of one property and a scratch worktree
-(nine rounds; the second asked for less obvious sites, the third and fourth (`"round"` in meta.json) for three mutually
+(ten rounds; the second asked for less obvious sites, the third and fourth (`"round"` in meta.json) for three mutually
 different mechanisms per property with narrow failing inputs, schedule-dependent ones included; the fifth and sixth were
 confined to the ENTRY LAYER - src/main.rs, lib.rs, config.rs, progress.rs, error.rs, shell.rs: how an invocation becomes a
 run and how its result is reported). Each was confirmed in a scratch worktree (`tools/confirm_seeds.sh`,
@@ -58,7 +58,14 @@ dependencies now ends with its dependency directive as the last line. Round 9 ("
 missed at first - overlapping tag names where the skipped tag was dropped (C01), a dependency reached through a symbolic
 link or named by absolute path (C02), a stored tag text naming a later tag in the write-escape test (C16), a directory called
 `sh` in the working directory and a source outside the base whose path begins with the base path's text (C17); the
-generators were extended again and all are caught.
+generators were extended again and all are caught. Round 10 (C04-C07, C09, C11-C13, "the inputs the checks do not
+generate", 24 changes): seven missed at first - a short write to a *temp* file under a file-size limit (C04: the fault
+injection limited only outputs), a write-escaped `include` line re-examined in collect mode (C05: schedule-world files now carry
+one), verify of an output larger than the 8 KiB reader buffer (C06: large-output scenario, 40 KB - 3 MB), the unused-tag
+check skipped under `--needed` (C09: erroneous projects must fail under `--needed` exactly like under a build), `include
+x.txtpp` of a source file taken for a dependency and verify skipping the dependency pass (C11: raw includes of source files
+and a verify mode in the input-resolution job), a source built only as a dependency ignoring the trailing-newline option
+(C13: dependency-only scenario) - all caught now.
 
 | id | property | what the change does | caught by (quick tier) |
 |----|----------|----------------------|------------------------|
